@@ -772,8 +772,18 @@ class Gen:
                 # `inherent`: the method of a trait impl is emitted as an inherent method (trait dispatch is dropped)
                 hdr = "impl " + impl["a"]["self_ty"]
             self.emit(hdr.strip() + " {\n", ("src-header", it["rel"], impl["s"]))
-        for seg in ed.segments():
-            self.emit(*seg)
+        for text, origin in ed.segments():
+            # expand anchor placeholders left by rewrite rules
+            while True:
+                hit = [(text.find(tok), tok) for tok in self._placeholders if tok in text]
+                if not hit:
+                    break
+                at, tok = min(hit)
+                self.emit(text[:at], origin)
+                for t2, o2 in self._placeholders.pop(tok):
+                    self.emit(t2, o2)
+                text = text[at + len(tok):]
+            self.emit(text, origin)
         if impl is not None and impl["k"] == "Impl" and close_hdr:
             self.emit("\n}\n", ("glue",))
         else:
@@ -790,6 +800,7 @@ class Gen:
     # ---- body rewriting ---------------------------------------------------------------------
     def rewrite_body(self, it, src, fn, body, ed):
         self._pending = getattr(self, "_pending", [])
+        self._placeholders = {}
         T = src.text
         loops = []  # loop sites in source order: (node, kind)
         closure_locals = {}  # name -> Local node (for R4)
@@ -803,7 +814,15 @@ class Gen:
             elif k == "MethodCall" and n["a"]["method"] == "for_each":
                 loops.append((n, "for_each"))
             elif k == "MethodCall" and n["a"]["method"] in ("position", "any", "all"):
+                if n["a"]["method"] == "any" and kid(n, "receiver")["k"] == "MethodCall" and kid(n, "receiver")["a"]["method"] == "chars":
+                    continue  # R6c
                 loops.append((n, n["a"]["method"]))
+            elif k == "MethodCall" and n["a"]["method"] == "join" and kid(n, "receiver")["k"] == "MethodCall" \
+                    and kid(n, "receiver")["a"]["method"] == "collect" and kid(kid(n, "receiver"), "receiver")["k"] == "MethodCall" \
+                    and kid(kid(n, "receiver"), "receiver")["a"]["method"] == "map" \
+                    and kid(kid(kid(n, "receiver"), "receiver"), "receiver")["k"] == "MethodCall" \
+                    and kid(kid(kid(n, "receiver"), "receiver"), "receiver")["a"]["method"] == "chars":
+                loops.append((n, "chars_map_join"))
             elif k == "Local":
                 init = kid(n, "init")
                 p = kid(n, "pat")
@@ -891,6 +910,25 @@ class Gen:
                 self.rw_position(it, src, fn, body, n, ed, pieces, idx)
             elif kind in ("any", "all"):
                 self.rw_any(it, src, fn, body, n, ed, pieces, idx, kind)
+            elif kind == "chars_map_join":
+                coll = kid(n, "receiver")
+                mp = kid(coll, "receiver")
+                chs = kid(mp, "receiver")
+                S = kid(chs, "receiver")
+                clo = kids(mp, "arg")[0]
+                sepn = kids(n, "arg")
+                if clo["k"] != "Closure" or len(kids(clo, "input")) != 1 or len(sepn) != 1 or sepn[0]["a"].get("lit") != '""':
+                    raise Inconclusive(f"unsupported construct: chars().map().collect().join() shape at {src.rel}:{src.line_of(n['s'])}")
+                cvar = T(kids(clo, "input")[0])
+                B = kid(clo, "body")
+                coll["_handled"] = True
+                ed.replace(n["s"], S["s"], "{ let mut __out = String::new(); let ghost mut __seen: Seq<char> = Seq::empty(); let mut __chars = ", ("rule", "R29"))
+                ed.replace(S["e"], B["s"], f".chars(); while let Some({cvar}) = __chars.next()", ("rule", "R29"))
+                for t, o in pieces:
+                    ed.insert(B["s"], t, o)
+                ed.insert(B["s"], f"{{ let ghost __seen0 = __seen; proof {{ lemma_head_skip(); __seen = __seen.push({cvar}); assert(__seen.drop_last() =~= __seen0); }} /*@@loop{idx}:begin@@*/ let ghost __o = __out@; let __piece: String = ", ("rule", "R29"))
+                ed.replace(B["e"], n["e"], "; __out.push_str(__piece.as_str()); proof { assert(__out@ =~= __o + __piece@); } } __out }", ("rule", "R29"))
+                self.fired("R29")
 
         # R23: `X.ok_or_else(|| anyhow!(..))?`   ->  match X { Some(v) => v, None => return Err(opaque) }
         # R24: `E.with_context(|| ..)?` / `E.context("..")?`  ->  match E { Ok(v) => v, Err(_) => return Err(opaque) }
@@ -957,8 +995,10 @@ class Gen:
             if n["k"] == "MethodCall" and n["a"]["method"] == "as_bytes" and kid(n, "receiver")["k"] == "MethodCall" \
                     and kid(n, "receiver")["a"]["method"] == "encode_utf8":
                 C = kid(kid(n, "receiver"), "receiver")
-                ed.replace(n["s"], C["s"], "__encode_utf8_vec(", ("rule", "R22"))
-                ed.replace(C["e"], n["e"], ")", ("rule", "R22"))
+                Bf = kids(kid(n, "receiver"), "arg")[0]
+                ed.replace(n["s"], C["s"], "__encode_utf8_bytes(", ("rule", "R22"))
+                ed.replace(C["e"], Bf["s"], ", ", ("rule", "R22"))
+                ed.replace(Bf["e"], n["e"], ")", ("rule", "R22"))
                 self.fired("R22")
 
         # R8': format! whose value IS the result: replaced by a generated external_body helper whose `ensures`
@@ -1044,6 +1084,49 @@ class Gen:
                 ed.replace(lit["e"], n["e"], ")", ("rule", "R28"))
                 self.fired("R28")
 
+        # R6c: `S.chars().any(|c| P)` anywhere (P captures nothing) -> generated function with an early-return loop
+        for n in walk(body):
+            if n["k"] == "MethodCall" and n["a"]["method"] == "any" and kid(n, "receiver")["k"] == "MethodCall" \
+                    and kid(n, "receiver")["a"]["method"] == "chars" and len(kids(n, "arg")) == 1 and kids(n, "arg")[0]["k"] == "Closure":
+                gens = [g for g in it.get("genfns", {}).values() if g["kind"] == "charsany"]
+                if not gens:
+                    raise Inconclusive(f"unsupported construct: chars().any() without @genfn charsany at {src.rel}:{src.line_of(n['s'])}")
+                spec = gens[0]
+                clo = kids(n, "arg")[0]
+                cvar = T(kids(clo, "input")[0])
+                P = kid(clo, "body")
+                S = kid(kid(n, "receiver"), "receiver")
+                gname = "__chars_any_" + spec["name"]
+                ed.replace(n["s"], S["s"], gname + "(&", ("rule", "R6c"))
+                ed.replace(S["e"], n["e"], ")", ("rule", "R6c"))
+                dead.append((S["e"], n["e"]))
+                n["_handled"] = True
+                self.fired("R6c")
+                pend = [(f"// R6c: generated for `.chars().any(|{cvar}| ..)` ({src.rel}:{src.line_of(n['s'])}); predicate spliced verbatim; termination unproved\n"
+                         f"#[verifier::exec_allows_no_decreases_clause]\nfn {gname}(__s: &str) -> (r: bool)\n", ("trusted", "termination unproved " + gname))]
+                for kind in ("requires", "ensures"):
+                    cs = [c for c in spec["clauses"] if c.kind == kind and c.active(self.prop)]
+                    if cs:
+                        pend.append((f"    {kind}\n", ("glue",)))
+                        for c in cs:
+                            self.reg(c)
+                            pend.append(("        " + c.text + ",\n", ("clause", c.id)))
+                pend.append((f"{{\n    let mut __chars = __s.chars();\n    let ghost mut __seen: Seq<char> = Seq::empty();\n    while let Some({cvar}) = __chars.next()\n", ("rule", "R6c")))
+                cs = [c for c in spec["invariants"] if c.active(self.prop)]
+                if cs:
+                    pend.append(("        invariant\n", ("glue",)))
+                    for c in cs:
+                        self.reg(c)
+                        pend.append(("            " + c.text + ",\n", ("clause", c.id)))
+                pend.append((f"        ensures __chars.remaining().len() == 0,\n    {{\n        proof {{ lemma_head_skip(); __seen = __seen.push({cvar}); }}\n        if ", ("rule", "R6c")))
+                ptxt = T(P)
+                for meth, func in it["callmap"]:
+                    if "[" not in meth:
+                        ptxt = re.sub(r"\b(\w+)\." + re.escape(meth) + r"\(\)", func + r"(\1)", ptxt)
+                pend.append((ptxt, ("src", src.rel, P["s"])))
+                pend.append((f" {{ proof {{ assert(__s@[__seen.len() - 1] == {cvar}); }} return true; }}\n    }}\n    proof {{ assert(__seen =~= __s@); }}\n    false\n}}\n", ("rule", "R6c")))
+                self._pending.extend(pend)
+
         # R15: X.clone().or_else(|| Y.clone())  ->  __clone_or_else(&X, &Y)   (X, Y verbatim)
         # R14: V.extend(E)                       ->  __vec_extend(&mut V, E)
         for n in walk(body):
@@ -1064,7 +1147,7 @@ class Gen:
                     raise Inconclusive(f"unsupported construct: .or_else() shape at {src.rel}:{src.line_of(n['s'])}")
             elif n["a"]["method"] == "extend" and len(kids(n, "arg")) == 1:
                 X, E = kid(n, "receiver"), kids(n, "arg")[0]
-                ed.replace(n["s"], X["s"], "__vec_extend(&mut ", ("rule", "R14"))
+                ed.replace(n["s"], X["s"], ("__vec_extend_slice(&mut " if "extend=slice" in it["opts"] else "__vec_extend(&mut "), ("rule", "R14"))
                 ed.replace(X["e"], E["s"], ", ", ("rule", "R14"))
                 ed.replace(E["e"], n["e"], ")", ("rule", "R14"))
                 self.fired("R14")
@@ -1206,6 +1289,9 @@ class Gen:
                     rc = kid(n, "receiver")
                     if want_rc is not None and norm(T(rc)) != want_rc:
                         continue
+                    if any(a0 <= n["s"] and n["e"] <= b0 for a0, b0 in dead):
+                        hit += 1  # consumed by another rule that re-applies the call map itself
+                        continue
                     ed.insert(n["s"], func + "(", ("rule", "R11"))
                     ed.replace(rc["e"], n["e"], ")", ("rule", "R11"))
                     hit += 1
@@ -1259,6 +1345,9 @@ class Gen:
                 ed.insert(te["e"], ";\n" + cl.text + "\n__r", ("clause", cl.id))
                 continue
             pos = self.resolve_anchor(it, src, body, loops, anchor)
+            if isinstance(pos, tuple):
+                self._placeholders.setdefault(pos[1], []).append(("\n" + cl.text + "\n", ("clause", cl.id)))
+                continue
             ed.insert(pos, "\n" + cl.text + "\n", ("clause", cl.id))
 
     def resolve_anchor(self, it, src, body, loops, anchor):
@@ -1276,6 +1365,8 @@ class Gen:
                 raise Inconclusive(f"lost anchor: {it['name']} loop {idx}")
             n, kind = loops[idx]
             if w[2] == "begin":
+                if kind == "chars_map_join":
+                    return ("placeholder", f"/*@@loop{idx}:begin@@*/")
                 b = kid(n, "body")
                 if b is None:
                     raise Inconclusive(f"lost anchor: loop {idx} has no block body")
